@@ -137,6 +137,7 @@ class Outcome:
     classes: tuple[str, ...] = ()
     note: str = ""
     inconclusive: bool = False
+    extra: dict | None = None  # Stats partial of a nested campaign (coverage-guided engine): merged into the evidence counters
 
 
 @dataclasses.dataclass
@@ -237,6 +238,23 @@ class Stats:
             self.classes[f"{layer}:{c}"] += 1
         if out.inconclusive:
             self.inconclusive += 1
+        if out.extra:
+            # a nested campaign: its executions are evaluations of this layer
+            x = out.extra
+            self.evaluations += x["evaluations"]
+            self.per_layer[layer] += x["evaluations"]
+            new = set(x["nontrivial_digests"]) - self.nontrivial_digests
+            self.nontrivial_digests.update(new)
+            self.per_layer_nt[layer] += len(new)
+            for c, n in x["classes"].items():
+                self.classes[f"{layer}:{c.split(':', 1)[-1]}"] += n
+            for kid, n in x.get("known_seen", {}).items():
+                self.known_seen[kid] += n
+            for smp in x["samples"][:2]:
+                if self.sample_layers[layer] < 2:
+                    self.sample_layers[layer] += 1
+                    self.samples.append(smp)
+            return
         if out.nontrivial:
             d = case_digest(case)
             if d not in self.nontrivial_digests:
